@@ -42,7 +42,7 @@ def gen_case(rng):
     elif r < 0.85:
         bsz = rng.choice((64, 65, 100, 127, 128, 129, 255, 256, 257, 1000, 1024, 4096))
     else:
-        bsz = rng.choice((8192, 65536, 0xFFFFFF))
+        bsz = rng.choice((8192, 65536, 0xFFFFFF, 8095, 8096, 8097))
     n = rng.choice((1, 1, 1, 1, 2, 3))
     special = rng.choice((0.0, 0.0, 0.0, 0.2))
     srcs = merge.gen_sources(rng, n, bsz, max_msgs=rng.choice((3, 8, 20, 40)),
